@@ -210,6 +210,10 @@ mod verif_deflate_core {
     /// leaves nondeterministic pending output.
     fn model_flush_block(d: &mut CompressorOxide, callback: &mut CallbackOxide, flush: TDEFLFlush) -> Result<i32> {
         assert!(d.params.saved_match_len == 0, "OBL:dispatch.final_flush_block_once [C12 C02]");
+        // flush_block's precondition at this call site (the real one debug_asserts it): nothing still waiting in the
+        // local buffer (it would be overwritten) and no unprocessed lookahead
+        assert!(d.params.flush_remaining == 0, "OBL:dispatch.no_final_flush_block_while_output_is_pending [C02 C01]");
+        assert!(d.dict.lookahead_size == 0, "OBL:dispatch.no_final_flush_block_with_unprocessed_lookahead [C02 C12]");
         d.params.saved_match_len = 1 + flush as u32;
         d.params.block_index = d.params.block_index.wrapping_add(1);
         let r: u8 = kani::any();
